@@ -145,7 +145,7 @@ def run_op(pf, op, shared=None):
     if k == "meta":                  # the memoised metadata views of the handle
         return [sha(repr(sorted((str(a), str(b)[:200]) for a, b in pf.key_value_metadata.items())))[:16],
                 sha(repr(canon(pf.pandas_metadata)))[:16], canon(pf.categories), bool(pf.has_pandas_metadata), str(pf)[:200],
-                canon(pf.info), {str(a): str(b) for a, b in pf.dtypes.items()} if hasattr(pf, "dtypes") and isinstance(getattr(pf, "dtypes", None), dict) else None]
+                canon(pf.info)]         # (pf.dtypes is a per-call output attribute of to_pandas: not part of any result)
     if k == "schema_text":           # the rendering of the schema (memoised on the helper shared with derived handles)
         return [pf.schema.text, str(pf[0:1].schema) if len(pf.row_groups) else ""]
     if k == "rebuild":               # what ParquetFile.__getitem__ did on the pinned tree for every derived handle
